@@ -3,7 +3,7 @@
 use super::{decode, PropDef};
 use crate::engine::proc::{lossy, Ctx};
 use crate::engine::{fail, Gen, Outcome, Pass, Worker};
-use findutils::find::matchers::verif_hooks::glob_match_many;
+use findutils::find::matchers::verif_hooks::{glob_match_error, glob_match_many};
 use serde::{Deserialize, Serialize};
 use serde_json::{json, Value};
 use std::ffi::CString;
@@ -48,6 +48,10 @@ fn fnm(pattern: &str, subject: &str, casefold: bool) -> Option<bool> {
     } else {
         // classes would treat the placeholder differently from the letter it stands for
         if pattern.contains("[:") {
+            return None;
+        }
+        // a range could contain the placeholder although it does not contain the character it stands for
+        if pattern.contains('[') && pattern.contains('-') {
             return None;
         }
         let mut map: Vec<(char, char)> = vec![];
@@ -324,6 +328,13 @@ fn compare(pattern: &str, subjects: &[String]) -> Outcome {
             any_match |= want;
             any_nomatch |= !want;
             if *g != want {
+                // a match that is missed because the backtracking engine behind the matcher gave up
+                // (its retry limit) is a finding of its own, listed in known_findings.json
+                if want {
+                    if let Some(e) = glob_match_error(pattern, s, casefold) {
+                        return fail("C12:glob-engine-gives-up:missed", format!("pattern {pattern:?} subject {s:?} caseless={casefold}: fnmatch says match; the engine reports {e:?} and the subject is reported as not matching"));
+                    }
+                }
                 let kind = classify(pattern, s, want);
                 return fail(
                     format!("C12:{}:{kind}", if casefold { "caseless" } else { "case-sensitive" }),
@@ -618,6 +629,7 @@ fn run(w: &mut Worker) {
     set_locale();
     w.regress::<PatCase>("pairs", check_pat);
     w.regress::<E2eCase>("e2e", check_e2e);
+    w.regress_fuzz(fuzz_one);
     let maxp = w.tier.pick(4usize, 5);
     let pats = all_strings(PSYM, maxp);
     w.exhaustive("pairs-small", &format!("every pattern of <= {maxp} symbols over {{a b * ? [ ] ! - \\ . /}} x every subject of <= 4 symbols over {{a b . / - ] NL}} (+14 extra), both case modes"), pats.into_iter().map(|pattern| PatCase { pattern, subjects: vec![] }), check_pat);
